@@ -35,7 +35,7 @@ for sid, info in sorted(meta_all.items()):
         "property": c, "round": 7, "change": info["summary"], "needs_to_manifest": info["needs"],
         "origin": "independent sub-agent given only the property text and a scratch worktree of /repo (nothing from /verif)",
         "applies_to_repo_commit": head,
-        "confirmed_by_me": {"how": "/tmp/r7_verify.sh (same steps as tools/verify_seeded.sh) in the scratch worktree: demo without "
+        "confirmed_by_me": {"how": "tools/r7_verify.sh (run from /tmp at the time; same steps as tools/verify_seeded.sh) in the scratch worktree: demo without "
                                    "patch, demo with patch, unedited pytest suite with patch", "result": ver[0]},
         "detection": {"command": f"tools/mutant.sh seeded/{sid}/patch.diff quick " + " ".join(caught_by or [c]),
                       "result_when_it_arrived": first[0] if first else None, "result": final,
